@@ -1,420 +1,289 @@
 package main
 
-// T1 facts for C15 (message hub and its websocket listeners): queue lengths and the SHAPE of the
-// listener close / send protocol in pkg/rest/socketv{1,2}_controller.go.  Everything is read off the
-// syntax tree; a shape that is not recognised comes out as `none` / "unknown".
+// T1 facts for C15 (message hub and its websocket listeners): queue capacities and the SHAPE of the listener
+// close / send protocol in pkg/rest/socketv{1,2}_controller.go.  Everything is read off the syntax tree and is
+// independent of the spelling of unexported names:
+//   * the LISTENER TYPE of a socket file is the type that declares the methods Receive and Delete (the exported
+//     contract msghub.Listener) — not a type called msgListenerV1;
+//   * its fields are found by their declared type and use: the HUB field is the one of type *msghub.Hub, the EVENT
+//     QUEUE is the channel field that the file sends on, the DONE channel is the `chan struct{}` field that the file
+//     closes, the ONCE field is the one of type sync.Once;
+//   * Close / Receive / Delete / WSWriter (exported) are looked at together with every same-file function and
+//     method of the listener they (transitively) call, so extracting or inlining a helper changes nothing;
+//   * the hub's operation queue is the Hub field of type `chan func(…)`, its capacity the integer (literal or
+//     constant) given to the make() that initialises it.
+// A shape that is not recognised comes out as `none` / "unknown", which no tie theorem accepts.
 
 import (
 	"go/ast"
-	"go/token"
-	"strconv"
 )
 
 func init() { extractors = append(extractors, extractHub) }
 
-func optBool(b *bool) string {
-	if b == nil {
-		return "none"
-	}
-	if *b {
-		return "some true"
-	}
-	return "some false"
+// hbListener: what is known about the listener type of one socket file.
+type hbListener struct {
+	f       *ast.File
+	typ     string
+	methods map[string]*ast.FuncDecl
+	hub     string // field of type *msghub.Hub
+	queue   string // channel field the file sends on
+	done    string // chan struct{} field the file closes
+	once    string // field of type sync.Once
 }
 
-func boolp(b bool) *bool { return &b }
-
-// recvName: name of the receiver variable of a method ("" if anonymous / not a method).
-func recvName(fd *ast.FuncDecl) string {
-	if fd == nil || fd.Recv == nil || len(fd.Recv.List) != 1 || len(fd.Recv.List[0].Names) != 1 {
+// hbFind fills in the structure; fields that cannot be identified uniquely stay "".
+func hbFind(f *ast.File) *hbListener {
+	if f == nil {
+		return nil
+	}
+	types := axTypesWithMethods(f, "Receive", "Delete")
+	if len(types) != 1 {
+		return nil
+	}
+	l := &hbListener{f: f, typ: types[0], methods: axMethods(f, types[0])}
+	st := axStruct(f, l.typ)
+	if st == nil {
+		return nil
+	}
+	one := func(names []string) string {
+		if len(names) == 1 {
+			return names[0]
+		}
 		return ""
 	}
-	return fd.Recv.List[0].Names[0].Name
-}
-
-// methodsOf: all methods of the named receiver type in f.
-func methodsOf(f *ast.File, typ string) map[string]*ast.FuncDecl {
-	res := map[string]*ast.FuncDecl{}
-	if f == nil {
-		return res
+	l.hub = one(axFieldsWhere(st, func(t ast.Expr) bool { return axIsQualified(t, "msghub", "Hub", true) }))
+	l.once = one(axFieldsWhere(st, func(t ast.Expr) bool { return axIsQualified(t, "sync", "Once", false) }))
+	chans := axFieldsWhere(st, func(t ast.Expr) bool { _, ok := t.(*ast.ChanType); return ok })
+	isChan := map[string]bool{}
+	for _, c := range chans {
+		isChan[c] = true
 	}
-	for _, d := range f.Decls {
-		if fd, ok := d.(*ast.FuncDecl); ok && fd.Recv != nil && fn(f, typ, fd.Name.Name) == fd {
-			res[fd.Name.Name] = fd
-		}
-	}
-	return res
-}
-
-// isSel: x is `<ident>.<field>`; returns the identifier.
-func isSel(x ast.Expr, field string) (string, bool) {
-	se, ok := x.(*ast.SelectorExpr)
-	if !ok || se.Sel.Name != field {
-		return "", false
-	}
-	id, ok := se.X.(*ast.Ident)
-	if !ok {
-		return "", false
-	}
-	return id.Name, true
-}
-
-// isCloseOf: n is the call close(<ident>.<field>).
-func isCloseOf(n ast.Node, field string) bool {
-	ce, ok := n.(*ast.CallExpr)
-	if !ok || len(ce.Args) != 1 {
-		return false
-	}
-	if id, ok := ce.Fun.(*ast.Ident); !ok || id.Name != "close" {
-		return false
-	}
-	_, ok = isSel(ce.Args[0], field)
-	return ok
-}
-
-func containsCloseOf(n ast.Node, field string) bool {
-	found := false
-	ast.Inspect(n, func(x ast.Node) bool {
-		if x != nil && isCloseOf(x, field) {
-			found = true
-		}
-		return true
-	})
-	return found
-}
-
-// commRecvFrom: the comm statement of a select clause receives from `<ident>.<field>`.
-func commRecvFrom(s ast.Stmt, field string) bool {
-	var e ast.Expr
-	switch v := s.(type) {
-	case *ast.ExprStmt:
-		e = v.X
-	case *ast.AssignStmt:
-		if len(v.Rhs) == 1 {
-			e = v.Rhs[0]
-		}
-	}
-	for {
-		p, ok := e.(*ast.ParenExpr)
-		if !ok {
-			break
-		}
-		e = p.X
-	}
-	ue, ok := e.(*ast.UnaryExpr)
-	if !ok || ue.Op != token.ARROW {
-		return false
-	}
-	_, ok = isSel(ue.X, field)
-	return ok
-}
-
-// selectsOn: n contains a select statement with a comm clause receiving from `<ident>.<field>`.
-func selectsOn(n ast.Node, field string) bool {
-	found := false
-	ast.Inspect(n, func(x ast.Node) bool {
-		ss, ok := x.(*ast.SelectStmt)
-		if !ok {
-			return true
-		}
-		for _, cl := range ss.Body.List {
-			if cc, ok := cl.(*ast.CommClause); ok && cc.Comm != nil && commRecvFrom(cc.Comm, field) {
-				found = true
+	// event queue: the channel fields that are the target of a send statement anywhere in the file
+	sentOn := map[string]bool{}
+	ast.Inspect(f, func(x ast.Node) bool {
+		if s, ok := x.(*ast.SendStmt); ok {
+			if _, n, ok := axSel(s.Chan); ok && isChan[n] {
+				sentOn[n] = true
 			}
 		}
 		return true
 	})
-	return found
-}
-
-// sameRecvCalls: names of methods of the same receiver that fd calls as `<recv>.<name>(…)`.
-func sameRecvCalls(fd *ast.FuncDecl, methods map[string]*ast.FuncDecl) []string {
-	r := recvName(fd)
-	var res []string
-	if r == "" || fd.Body == nil {
-		return res
+	var q []string
+	for _, c := range chans {
+		if sentOn[c] {
+			q = append(q, c)
+		}
 	}
-	ast.Inspect(fd.Body, func(x ast.Node) bool {
-		ce, ok := x.(*ast.CallExpr)
-		if !ok {
-			return true
+	l.queue = one(q)
+	// done channel: the chan struct{} fields (other than the queue) that the file closes
+	var d []string
+	for _, c := range axFieldsWhere(st, axIsChanOfEmptyStruct) {
+		if c != l.queue && axClosesField(f, c) > 0 {
+			d = append(d, c)
 		}
-		se, ok := ce.Fun.(*ast.SelectorExpr)
-		if !ok {
-			return true
-		}
-		if id, ok := se.X.(*ast.Ident); ok && id.Name == r {
-			if _, ok := methods[se.Sel.Name]; ok {
-				res = append(res, se.Sel.Name)
-			}
-		}
-		return true
-	})
-	return res
+	}
+	l.done = one(d)
+	return l
 }
 
-// sendShape classifies every send statement of the file.
-func sendShape(f *ast.File) string {
-	if f == nil {
+func (l *hbListener) reach(names ...string) []*ast.FuncDecl {
+	var start []*ast.FuncDecl
+	for _, n := range names {
+		if l.methods[n] == nil {
+			return nil
+		}
+		start = append(start, l.methods[n])
+	}
+	return axReach(l.f, l.typ, start...)
+}
+
+// hbSendShape classifies every send statement of the file.
+//   nonBlockingSend  every send goes to the event queue field and is the comm of a select that has a default clause
+//   blockingSend     some send to the event queue is a plain statement, or a select comm without default
+//   unknown          no event queue, or a send on something that is not syntactically `<x>.<queue>` (alias?)
+func hbSendShape(l *hbListener) string {
+	if l == nil || l.queue == "" {
 		return "unknown"
 	}
-	commSend := map[*ast.SendStmt]bool{} // send that is the comm of a select clause -> select has default
-	ast.Inspect(f, func(x ast.Node) bool {
+	guarded := map[*ast.SendStmt]bool{} // send that is the comm of a select clause -> select has default
+	ast.Inspect(l.f, func(x ast.Node) bool {
 		ss, ok := x.(*ast.SelectStmt)
 		if !ok {
 			return true
 		}
+		comms := axComms(ss)
 		hasDefault := false
-		for _, cl := range ss.Body.List {
-			if cc, ok := cl.(*ast.CommClause); ok && cc.Comm == nil {
-				hasDefault = true
-			}
+		for _, c := range comms {
+			hasDefault = hasDefault || c.isDefault
 		}
-		for _, cl := range ss.Body.List {
-			if cc, ok := cl.(*ast.CommClause); ok {
-				if snd, ok := cc.Comm.(*ast.SendStmt); ok {
-					commSend[snd] = hasDefault
-				}
+		for _, c := range comms {
+			if snd, ok := c.clause.Comm.(*ast.SendStmt); ok {
+				guarded[snd] = hasDefault
 			}
 		}
 		return true
 	})
-	total, plain, guarded, unguarded, foreign := 0, 0, 0, 0, 0
-	ast.Inspect(f, func(x ast.Node) bool {
+	total, blocking, foreign := 0, 0, 0
+	ast.Inspect(l.f, func(x ast.Node) bool {
 		snd, ok := x.(*ast.SendStmt)
 		if !ok {
 			return true
 		}
-		if _, ok := isSel(snd.Chan, "c"); !ok {
-			foreign++ // a send on something that is not syntactically `<ident>.c` (alias?): do not guess
+		if !axIsField(snd.Chan, l.queue) {
+			foreign++
 			return true
 		}
 		total++
-		def, isComm := commSend[snd]
-		switch {
-		case !isComm:
-			plain++
-		case def:
-			guarded++
-		default:
-			unguarded++
+		if def, isComm := guarded[snd]; !isComm || !def {
+			blocking++
 		}
 		return true
 	})
 	switch {
-	case foreign > 0:
+	case foreign > 0 || total == 0:
 		return "unknown"
-	case plain > 0:
+	case blocking > 0:
 		return "blockingSend"
-	case total > 0 && guarded == total:
-		return "nonBlockingSend"
 	}
-	return "unknown"
+	return "nonBlockingSend"
 }
 
-// closeShape classifies method Close of the listener type.
-func closeShape(f *ast.File, methods map[string]*ast.FuncDecl) string {
-	cl := methods["Close"]
-	if f == nil || cl == nil || cl.Body == nil {
+// hbCloseShape classifies Close (with everything of the file it calls).
+//   selectOnDataChan  Close tests "already closed" by a select that receives from the event queue
+//   doneChan          Close runs <x>.<once>.Do(func(){ close(<x>.<done>) }) and <x>.<hub>.RemoveListener(<receiver>);
+//                     every close of the done channel in the file is inside such a once.Do and the event queue is never closed
+func hbCloseShape(l *hbListener) string {
+	if l == nil || l.queue == "" {
 		return "unknown"
 	}
-	if selectsOn(cl.Body, "c") {
+	scope := l.reach("Close")
+	if scope == nil {
+		return "unknown"
+	}
+	if axSelectsRecvField(scope, l.queue) {
 		return "selectOnDataChan"
 	}
-	if containsCloseOf(f, "c") {
+	if axClosesField(l.f, l.queue) > 0 || l.done == "" || l.once == "" || l.hub == "" {
 		return "unknown"
-	}
-	// Close itself plus the same-receiver helpers it calls (one level).
-	scope := []*ast.FuncDecl{cl}
-	for _, n := range sameRecvCalls(cl, methods) {
-		scope = append(scope, methods[n])
 	}
 	onceClosesDone, removes := false, false
 	for _, fd := range scope {
-		r := recvName(fd)
-		if r == "" || fd.Body == nil {
-			continue
-		}
+		recv := axRecvObj(fd)
 		ast.Inspect(fd.Body, func(x ast.Node) bool {
 			ce, ok := x.(*ast.CallExpr)
 			if !ok {
 				return true
 			}
-			switch src(ce.Fun) {
-			case r + ".once.Do":
-				if len(ce.Args) == 1 {
-					if fl, ok := ce.Args[0].(*ast.FuncLit); ok && containsCloseOf(fl.Body, "done") {
-						onceClosesDone = true
-					}
+			base, name, ok := axSel(ce.Fun)
+			if !ok {
+				return true
+			}
+			switch {
+			case name == "Do" && axIsField(base, l.once) && len(ce.Args) == 1:
+				if fl, ok := ce.Args[0].(*ast.FuncLit); ok && axClosesField(fl.Body, l.done) == 1 {
+					onceClosesDone = true
 				}
-			case r + ".hub.RemoveListener":
-				if len(ce.Args) == 1 && src(ce.Args[0]) == r {
+			case name == "RemoveListener" && axIsField(base, l.hub) && len(ce.Args) == 1:
+				// the listener unregisters ITSELF
+				if hb, _, ok := axSel(base); ok && axIs(hb, recv) && axIs(ce.Args[0], recv) {
 					removes = true
 				}
 			}
 			return true
 		})
 	}
-	// close(<x>.done) outside a once.Do would reintroduce the double-close hazard
-	doneCloses := 0
-	ast.Inspect(f, func(x ast.Node) bool {
-		if x != nil && isCloseOf(x, "done") {
-			doneCloses++
+	// a close(<x>.done) outside a <x>.<once>.Do(func(){…}) would reintroduce the double-close hazard
+	guardedCloses := 0
+	ast.Inspect(l.f, func(x ast.Node) bool {
+		ce, ok := x.(*ast.CallExpr)
+		if !ok || len(ce.Args) != 1 {
+			return true
+		}
+		if base, name, ok := axSel(ce.Fun); ok && name == "Do" && axIsField(base, l.once) {
+			if fl, ok := ce.Args[0].(*ast.FuncLit); ok {
+				guardedCloses += axClosesField(fl.Body, l.done)
+			}
 		}
 		return true
 	})
-	if onceClosesDone && removes && doneCloses == 1 {
+	if onceClosesDone && removes && axClosesField(l.f, l.done) == guardedCloses {
 		return "doneChan"
 	}
 	return "unknown"
 }
 
-// hubReachable: Receive, Delete or a same-receiver helper they (transitively) call mention `<recv>.hub`.
-func hubReachable(methods map[string]*ast.FuncDecl) *bool {
-	if methods["Receive"] == nil || methods["Delete"] == nil {
+// hbHubReachable: Receive, Delete or anything of the file they (transitively) call mentions the hub field.
+func hbHubReachable(l *hbListener) *bool {
+	if l == nil || l.hub == "" {
 		return nil
 	}
-	seen := map[string]bool{}
-	work := []string{"Receive", "Delete"}
-	uses := false
-	for len(work) > 0 {
-		n := work[0]
-		work = work[1:]
-		if seen[n] {
-			continue
-		}
-		seen[n] = true
-		fd := methods[n]
-		if fd == nil || fd.Body == nil {
-			continue
-		}
-		r := recvName(fd)
-		ast.Inspect(fd.Body, func(x ast.Node) bool {
-			if se, ok := x.(*ast.SelectorExpr); ok && r != "" {
-				if id, ok := isSel(se, "hub"); ok && id == r {
-					uses = true
-				}
-			}
-			return true
-		})
-		work = append(work, sameRecvCalls(fd, methods)...)
+	scope := l.reach("Receive", "Delete")
+	if scope == nil {
+		return nil
 	}
+	uses := axAny(scope, func(x ast.Node) bool {
+		se, ok := x.(*ast.SelectorExpr)
+		return ok && se.Sel.Name == l.hub
+	})
 	return &uses
 }
 
-// chanCap: capacity literal of the make(chan …, N) given to field c in the constructor.
-func chanCap(ctor *ast.FuncDecl) *int {
-	if ctor == nil || ctor.Body == nil {
+// hbChanCap: capacity of the make(chan …, N) that initialises field `field` anywhere in the file
+// (composite literal key or assignment); exactly one initialisation, N a literal or a constant.
+func hbChanCap(f *ast.File, field string) *int {
+	if f == nil || field == "" {
 		return nil
 	}
-	var vals []int
-	bad := false
-	note := func(v ast.Expr) {
-		ce, ok := v.(*ast.CallExpr)
-		if !ok {
-			bad = true
-			return
-		}
-		if id, ok := ce.Fun.(*ast.Ident); !ok || id.Name != "make" || len(ce.Args) != 2 {
-			bad = true
-			return
-		}
-		if _, ok := ce.Args[0].(*ast.ChanType); !ok {
-			bad = true
-			return
-		}
-		lit, ok := ce.Args[1].(*ast.BasicLit)
-		if !ok || lit.Kind != token.INT {
-			bad = true
-			return
-		}
-		n, err := strconv.Atoi(lit.Value)
-		if err != nil {
-			bad = true
-			return
-		}
-		vals = append(vals, n)
-	}
-	ast.Inspect(ctor.Body, func(x ast.Node) bool {
-		switch v := x.(type) {
-		case *ast.KeyValueExpr:
-			if id, ok := v.Key.(*ast.Ident); ok && id.Name == "c" {
-				note(v.Value)
-			}
-		case *ast.AssignStmt:
-			for i, l := range v.Lhs {
-				if _, ok := isSel(l, "c"); ok {
-					if len(v.Rhs) == len(v.Lhs) {
-						note(v.Rhs[i])
-					} else {
-						bad = true
-					}
-				}
-			}
-		}
-		return true
-	})
+	vals, bad := axFieldInits(f, field)
 	if bad || len(vals) != 1 {
 		return nil
 	}
-	return &vals[0]
+	n, ok := axMakeChanCap(vals[0])
+	if !ok {
+		return nil
+	}
+	return n
 }
 
 func extractHub() {
 	g := gen("Hub")
 
+	// ---- the hub itself
 	hf := parse("pkg/msghub/hub.go")
-	var opLen *int
-	if hf != nil {
-		n := 0
-		for _, d := range hf.Decls {
-			gd, ok := d.(*ast.GenDecl)
-			if !ok || gd.Tok != token.CONST {
-				continue
+	opField := ""
+	if st := axStruct(hf, "Hub"); st != nil {
+		// the operation queue: the field of type chan func(…)
+		ops := axFieldsWhere(st, func(t ast.Expr) bool {
+			ct, ok := t.(*ast.ChanType)
+			if !ok {
+				return false
 			}
-			for _, sp := range gd.Specs {
-				vs, ok := sp.(*ast.ValueSpec)
-				if !ok {
-					continue
-				}
-				for i, nm := range vs.Names {
-					if nm.Name != "opChanLen" {
-						continue
-					}
-					n++
-					if i < len(vs.Values) {
-						if lit, ok := vs.Values[i].(*ast.BasicLit); ok && lit.Kind == token.INT {
-							if v, err := strconv.Atoi(lit.Value); err == nil {
-								opLen = &v
-							}
-						}
-					}
-				}
-			}
-		}
-		if n != 1 {
-			opLen = nil
+			_, ok = ct.Value.(*ast.FuncType)
+			return ok
+		})
+		if len(ops) == 1 {
+			opField = ops[0]
 		}
 	}
-	g.def("opChanLen", "Option Nat", optNat(opLen), "const opChanLen in pkg/msghub/hub.go (capacity of the hub's operation queue)")
+	g.def("opChanLen", "Option Nat", optNat(hbChanCap(hf, opField)),
+		"capacity (literal or constant) of the make(chan func(…), N) that initialises the Hub's operation queue — the Hub field of type chan func(…) — in pkg/msghub/hub.go")
 
 	var startCloses *bool
-	if st := fn(hf, "Hub", "Start"); st != nil && st.Body != nil {
-		found := false
-		ast.Inspect(st.Body, func(x ast.Node) bool {
-			if x != nil && isCloseOf(x, "opChan") {
-				found = true
-			}
-			return true
+	if st := fn(hf, "Hub", "Start"); st != nil && st.Body != nil && opField != "" {
+		found := axAny(axReach(hf, "Hub", st), func(x ast.Node) bool {
+			ce, ok := axBuiltin(x, "close")
+			return ok && len(ce.Args) == 1 && axIsField(ce.Args[0], opField)
 		})
 		startCloses = &found
 	}
-	g.def("startClosesOpChan", "Option Bool", optBool(startCloses), "does (*Hub).Start contain close(hub.opChan)?  (a late Dispatch would then panic)")
+	g.def("startClosesOpChan", "Option Bool", axOptBool(startCloses),
+		"does (*Hub).Start, or a same-file function it calls, close the operation queue?  (a late Dispatch would then panic)")
 
-	type ver struct{ suffix, file, typ, ctor string }
+	// ---- the websocket listeners
+	type ver struct{ suffix, file string }
 	vers := []ver{
-		{"V1", "pkg/rest/socketv1_controller.go", "msgListenerV1", "newMsgListenerV1"},
-		{"V2", "pkg/rest/socketv2_controller.go", "msgListenerV2", "newMsgListenerV2"},
+		{"V1", "pkg/rest/socketv1_controller.go"},
+		{"V2", "pkg/rest/socketv2_controller.go"},
 	}
 	type facts struct {
 		cap                           *int
@@ -423,41 +292,47 @@ func extractHub() {
 	}
 	all := map[string]facts{}
 	for _, v := range vers {
-		f := parse(v.file)
-		ms := methodsOf(f, v.typ)
+		l := hbFind(parse(v.file))
 		fa := facts{closeShape: "unknown", recvShape: "unknown"}
-		if f != nil && len(ms) > 0 {
-			fa.cap = chanCap(fn(f, "", v.ctor))
-			fa.closeShape = closeShape(f, ms)
-			fa.recvShape = sendShape(f)
-			fa.closesData = boolp(containsCloseOf(f, "c"))
-			if w := ms["WSWriter"]; w != nil && w.Body != nil {
-				fa.writerDone = boolp(selectsOn(w.Body, "done"))
+		if l != nil {
+			fa.cap = hbChanCap(l.f, l.queue)
+			fa.closeShape = hbCloseShape(l)
+			fa.recvShape = hbSendShape(l)
+			if l.queue != "" {
+				b := axClosesField(l.f, l.queue) > 0
+				fa.closesData = &b
 			}
-			fa.calls = hubReachable(ms)
+			if w := l.reach("WSWriter"); w != nil && l.done != "" {
+				b := axSelectsRecvField(w, l.done)
+				fa.writerDone = &b
+			}
+			fa.calls = hbHubReachable(l)
 		}
 		all[v.suffix] = fa
 	}
+	const who = "the listener type (the one with methods Receive and Delete) of "
 	// grouped by fact, V1 then V2
 	for _, v := range vers {
-		g.def("chanCap"+v.suffix, "Option Nat", optNat(all[v.suffix].cap), "capacity literal of the make(chan …, N) assigned to field c in "+v.ctor)
+		g.def("chanCap"+v.suffix, "Option Nat", optNat(all[v.suffix].cap),
+			"capacity of the make(chan …, N) that initialises the event queue (the channel field that is sent on) of "+who+v.file)
 	}
 	for _, v := range vers {
 		g.def("wsClose"+v.suffix, "String", leanStr(all[v.suffix].closeShape),
-			"shape of (*"+v.typ+").Close: selectOnDataChan = tests `already closed` by receiving from the event queue; doneChan = sync.Once-guarded close of a separate done channel + RemoveListener, event queue never closed")
+			"shape of Close of "+who+v.file+": selectOnDataChan = tests `already closed` by receiving from the event queue; doneChan = sync.Once-guarded close of a separate chan struct{} field + <hub field>.RemoveListener(itself), event queue never closed")
 	}
 	for _, v := range vers {
 		g.def("wsReceive"+v.suffix, "String", leanStr(all[v.suffix].recvShape),
-			"all sends on the event queue in "+v.file+": nonBlockingSend = each is a select comm with a default clause; blockingSend = at least one plain send statement")
+			"all send statements in "+v.file+": nonBlockingSend = each is on the event queue and is a select comm with a default clause; blockingSend = at least one is a plain statement or in a select without default")
 	}
 	for _, v := range vers {
-		g.def("closesDataChan"+v.suffix, "Option Bool", optBool(all[v.suffix].closesData), "any close(<x>.c) in "+v.file)
+		g.def("closesDataChan"+v.suffix, "Option Bool", axOptBool(all[v.suffix].closesData), "any close(<x>.<event queue>) in "+v.file)
 	}
 	for _, v := range vers {
-		g.def("writerSelectsDone"+v.suffix, "Option Bool", optBool(all[v.suffix].writerDone), "(*"+v.typ+").WSWriter selects on a receive from <recv>.done")
+		g.def("writerSelectsDone"+v.suffix, "Option Bool", axOptBool(all[v.suffix].writerDone),
+			"WSWriter (or a same-file function it calls) of "+who+v.file+" selects on a receive from the done channel (the chan struct{} field the file closes)")
 	}
 	for _, v := range vers {
-		g.def("receiveCallsHub"+v.suffix, "Option Bool", optBool(all[v.suffix].calls),
-			"Receive, Delete or a same-receiver helper they call mention <recv>.hub (they run on the hub goroutine: calling the hub from there would self-deadlock)")
+		g.def("receiveCallsHub"+v.suffix, "Option Bool", axOptBool(all[v.suffix].calls),
+			"Receive, Delete or a same-file function they (transitively) call mention the field of type *msghub.Hub (they run on the hub goroutine: calling the hub from there would self-deadlock)")
 	}
 }
